@@ -593,7 +593,7 @@ def run_check(prop, tier, seed, extra_engines=None, only=None):
                     continue
                 to_replay.append((h, r))
             elif r.status == "undecided":
-                if h.attrs.get("may_timeout") == "yes" and "timeout" in r.reason:
+                if h.attrs.get("may_timeout") == "yes" and ("timeout" in r.reason or "oom" in r.reason):
                     pass  # reported as undecided in the evidence, not counted as pass, not fatal
                 else:
                     inconclusive.append("%s: %s" % (name, r.reason))
